@@ -143,15 +143,16 @@ structure CreateOut where
 /-- `async_add_listener(browser, questions)`.  `purgesFirst` (generated leaf `add_listener_purges_first`; true since the D23
 repair): the expired records are purged, with notifications to the listeners already registered, *before* the browser is added, at
 the instant `tPurge` read there.  Then the cache is replayed to the browser at the instant `tReplay` that
-`_async_update_matching_records` reads (a second reading of the clock). -/
+`_async_update_matching_records` is handed (before the D23b repair it read the clock a second time; now it is the same reading). -/
 def Browser.createWith (purgesFirst : Bool) (c : Cache) (tPurge tReplay : Ms) (types : List String) : Except PyExc CreateOut := do
   let out ← if purgesFirst then expire (Cache.ops lower) c (Gen.Cache.add_listener_purge_expire_now tPurge) else pure (c, [])
   let s := Browser.start lower possible out.1 tReplay types
   pure { cache := out.1, purged := out.2, browser := s.1, callbacks := s.2 }
 
-/-- the code as it is -/
-def Browser.create (c : Cache) (tPurge tReplay : Ms) (types : List String) : Except PyExc CreateOut :=
-  Browser.createWith lower possible Gen.Cache.add_listener_purges_first c tPurge tReplay types
+/-- the code as it is: the clock is read once (`now`), the purge and the replay both use that reading (generated leaf
+`add_listener_replay_now`: the `now` handed to `_async_update_matching_records` is the one `cache.async_expire` got; D23b repair) -/
+def Browser.create (c : Cache) (now : Ms) (types : List String) : Except PyExc CreateOut :=
+  Browser.createWith lower possible Gen.Cache.add_listener_purges_first c now (Gen.Cache.add_listener_replay_now now) types
 
 /-- the periodic purge: `_async_cache_cleanup` reports every purged record as `(record, record)` -/
 def Browser.onPurge (c : Cache) (b : Browser) (now : Ms) : Except PyExc BrowserOut := do
